@@ -18,8 +18,8 @@ RULE = ("Exhaustive: every coalition id for n=1..N (players, len, from_players r
         "inverted, +player, -player, sub-/super-coalition enumeration as sets AND as counts; id-array functions players / "
         "get_size / sub_coalitions / super_coalitions / get_all_coalitions against the object versions and frozensets); every "
         "ordered PAIR for n<=M (|, &, -, containment, disjointness); powerset, minimal_game_coalitions, all_coalitions, "
-        "exclude_coalition, grand_coalition. Predicates: every integer game on the lattice {-L..L}^7 for n=3 and Hypothesis games "
-        "for n=4,5 (plus near-boundary mutations of superadditive games): is_superadditive, is_monotone_decreasing, is_sam, "
+        "exclude_coalition, grand_coalition. Predicates: every integer game on the lattice {-L..L}^7 for n=3, every 0/1-valued 4-player game with zero singletons "
+        "(2^11; {-1,0,1}^11 in thorough) and Hypothesis games for n=4,5 (incl. games built so that exactly ONE split inequality is violated): is_superadditive, is_monotone_decreasing, is_sam, "
         "check_supermodularity(...) is None must equal textbook definitions in exact arithmetic; tolerance clause (violation by "
         "relative 1e-12 accepted, 1e-6 rejected). Non-trivial for predicates: decided by a single inequality; coalition cases are "
         "distinct by construction (one case per coalition / per pair block).")
@@ -50,6 +50,8 @@ def check_case(case: dict) -> Result:
         return _check_predicates(case)
     if kind == "lattice":
         return _check_lattice(case)
+    if kind == "lattice4":
+        return _check_lattice4(case)
     if kind == "tolerance":
         return _check_tolerance(case)
     raise ValueError(kind)
@@ -243,6 +245,46 @@ def _check_lattice(case: dict) -> Result:
     return res
 
 
+def _check_lattice4(case: dict) -> Result:
+    """Every 4-player game with singletons 0 and values in {lo..hi} on the coalitions of size >= 2, restricted to one value
+    of the grand coalition and (optionally) one block of the first triple - 0/1-valued: 2^11 games in all."""
+    res = Result()
+    vals_range = case["values"]
+    big = [s for s in range(16) if popcount(s) >= 2]
+    fixed = case.get("fixed", {})
+    free = [s for s in big if str(s) not in fixed]
+    count = single = 0
+    for combo in itertools.product(vals_range, repeat=len(free)):
+        v = [0.0] * 16
+        for s, x in zip(free, combo):
+            v[s] = float(x)
+        for s, x in fixed.items():
+            v[int(s)] = float(x)
+        lib = _lib_predicates_fast(4, v)
+        ref = {"sa": is_sa(v, 4), "mono": is_monotone_nonincreasing(v, 4)}
+        ref["sam"] = ref["sa"] and ref["mono"]
+        count += 1
+        if len(sa_violations(v, 4)) == 1:
+            single += 1
+        for k in ref:
+            if lib[k] != ref[k]:
+                res.fail(f"predicate-{k} :: n=4: library says {lib[k]}, definition says {ref[k]} for v={v}")
+        if res.failures:
+            break
+    res.nontrivial = True
+    res.label("lattice4")
+    res.labels.append(f"lattice4-games={count}")
+    res.labels.append(f"lattice4-single-violation={single}")
+    return res
+
+
+def _lib_predicates_fast(n: int, v) -> dict:
+    from incomplete_cooperative.game_properties import is_monotone_decreasing, is_sam, is_superadditive
+    from .. import repo
+    g = repo.full_game(n, v)
+    return {"sa": bool(is_superadditive(g)), "mono": bool(is_monotone_decreasing(g)), "sam": bool(is_sam(g))}
+
+
 def _check_tolerance(case: dict) -> Result:
     """A superadditive float game with one inequality violated by a relative delta."""
     from incomplete_cooperative.game_properties import is_superadditive
@@ -274,7 +316,7 @@ def _check_tolerance(case: dict) -> Result:
 @st.composite
 def pred_games(draw, n: int):
     from ..games import arbitrary_games, sam_games, superadditive_games
-    kind = draw(st.sampled_from(["arbitrary", "sa", "sa-mutated", "sam", "sam-mutated", "small"]))
+    kind = draw(st.sampled_from(["arbitrary", "sa", "sa-mutated", "sam", "sam-mutated", "small", "one-split-violated", "one-split-violated"]))
     size = 1 << n
     if kind == "arbitrary":
         v = draw(arbitrary_games(n, n, classes=("int",)))["v"]
@@ -286,6 +328,25 @@ def pred_games(draw, n: int):
     else:
         v = list(draw(superadditive_games(n, n, classes=("int",)))["v"])
     single = False
+    if kind == "one-split-violated":
+        # a superadditive game in which exactly ONE inequality v(A)+v(B) <= v(A|B) is then broken: lower v(S) to just below its
+        # unique best split (keeping it >= every other split); S as a part of larger coalitions only gets easier
+        from ..games import build_superadditive
+        from ..oracles import proper_splits
+        singles = draw(st.lists(st.integers(-6, 6), min_size=n, max_size=n))
+        sur = draw(st.lists(st.integers(0, 5), min_size=size, max_size=size))
+        v = [float(x) for x in build_superadditive(n, singles, sur)]
+        cands = []
+        for s_ in range(size):
+            if popcount(s_) < 2:
+                continue
+            tot = sorted((v[a] + v[b] for a, b in proper_splits(s_)), reverse=True)
+            if len(tot) == 1 or tot[0] - 1 >= tot[1]:
+                cands.append((s_, tot[0]))
+        if cands:
+            s_, best = draw(st.sampled_from(cands))
+            v[s_] = best - 1.0
+            single = True
     if kind.endswith("mutated"):
         s = draw(st.integers(1, size - 1))
         v[s] += draw(st.sampled_from([-1.0, 1.0, -3.0, 2.0]))
@@ -309,7 +370,8 @@ def plan(tier: str) -> list[dict]:
                  {"mode": "enum", "cases": [{"kind": "coalitions", "n": 8}], "cost": 3},
                  {"mode": "enum", "cases": [{"kind": "pairs", "n": n} for n in range(1, 6)], "cost": 2},
                  {"mode": "enum", "cases": [{"kind": "lattice", "L": 1, "top": t} for t in (-1, 0, 1)], "cost": 3},
-                 {"mode": "games", "n": 4, "examples": 200, "cost": 2}, {"mode": "games", "n": 5, "examples": 60, "cost": 2},
+                 {"mode": "enum", "cases": [{"kind": "lattice4", "values": [0, 1]}], "cost": 3},
+                 {"mode": "games", "n": 4, "examples": 300, "cost": 2}, {"mode": "games", "n": 5, "examples": 100, "cost": 2},
                  {"mode": "tol", "n": 4, "examples": 80, "cost": 1}])
     return ([{"mode": "enum", "cases": [{"kind": "coalitions", "n": n} for n in range(1, 9)] + [{"kind": "helpers", "n": n} for n in range(1, 10)], "cost": 3},
              {"mode": "enum", "cases": [{"kind": "coalitions", "n": 9}], "cost": 8},
@@ -317,6 +379,8 @@ def plan(tier: str) -> list[dict]:
              {"mode": "enum", "cases": [{"kind": "pairs", "n": n} for n in range(1, 6)], "cost": 3},
              {"mode": "enum", "cases": [{"kind": "pairs", "n": 6}], "cost": 3}]
             + [{"mode": "enum", "cases": [{"kind": "lattice", "L": 2, "top": t}], "cost": 20} for t in (-2, -1, 0, 1, 2)]
+            + [{"mode": "enum", "cases": [{"kind": "lattice4", "values": [0, 1]}, {"kind": "lattice4", "values": [-1, 0]}], "cost": 6}]
+            + [{"mode": "enum", "cases": [{"kind": "lattice4", "values": [-1, 0, 1], "fixed": {"15": t, "14": u}}], "cost": 12} for t in (-1, 0, 1) for u in (-1, 0, 1)]
             + [{"mode": "games", "n": 4, "examples": 2500, "cost": 6} for _ in range(2)]
             + [{"mode": "games", "n": 5, "examples": 600, "cost": 6} for _ in range(2)]
             + [{"mode": "tol", "n": 4, "examples": 800, "cost": 3}, {"mode": "tol", "n": 5, "examples": 300, "cost": 3}])
